@@ -281,6 +281,18 @@ func (f *FuncVC) heap(st *State, name, sort string) string {
 	}
 	f.heapSorts[name] = sort
 	base := sym(name + "@0")
+	if !f.sc.declared[base] && f.wmEntry != "" && os.Getenv("GVC_NO_REFAX") == "" && (strings.HasSuffix(name, ".ref") || f.eng.isPtrHeap(name)) {
+		// every slice reference and every struct pointer stored in the ENTRY
+		// heap refers to an object that existed at function entry (heap typing
+		// invariant, stated per heap so that the plain select is the trigger)
+		f.sc.declare(base, sort)
+		switch sort {
+		case "(Array Int Int)":
+			f.sc.assert("(forall ((o Int)) (! (< (select " + base + " o) " + f.wmEntry + ") :pattern ((select " + base + " o))))")
+		case "(Array Int (Array Int Int))":
+			f.sc.assert("(forall ((o Int) (i Int)) (! (< (select (select " + base + " o) i) " + f.wmEntry + ") :pattern ((select (select " + base + " o) i))))")
+		}
+	}
 	f.sc.declare(base, sort)
 	// Heaps missing from a state have not been touched since entry *unless*
 	// a havoc-all happened; havoc-all enumerates f.universe, which is
